@@ -1,32 +1,7 @@
 import LSProofs.HandleLemmas
+import LSProofs.Pool
 /-! Small facts about `step` used by several properties. -/
 namespace LS
-
-theorem poolSet_self (p : List (Option Handle)) (h : Nat) (r : Handle) (hr : p[h]? = some (some r)) :
-    poolSet p h (some r) = p := by
-  have hlt : h < p.length := by
-    rcases Nat.lt_or_ge h p.length with h' | h'
-    · exact h'
-    · rw [List.getElem?_eq_none h'] at hr; cases hr
-  unfold poolSet
-  rw [if_pos hlt]
-  apply List.ext_getElem?
-  intro i
-  rw [List.getElem?_set]
-  split
-  · rename_i he; subst he; simp [hlt]
-    rw [List.getElem?_eq_getElem hlt] at hr; injection hr with hr; exact hr.symm
-  · rfl
-
-theorem World.get_some {w : World} {h : Nat} {r : Handle} (hg : w.get h = some r) : w.pool[h]? = some (some r) := by
-  unfold World.get at hg
-  split at hg
-  · rename_i r' heq; injection hg with hg; subst hg; exact heq
-  · cases hg
-
-theorem put_self (w : World) (h : Nat) (r : Handle) (hg : w.get h = some r) : w.put w.heap h (some r) = w := by
-  unfold World.put
-  rw [poolSet_self w.pool h r (World.get_some hg)]
 
 /-- the release half of `replace_inner` never touches the request counter -/
 theorem release_reqs {hp hp' : Heap} {a : Nat} (h : hp.release a = .ok hp') : hp'.reqs = hp.reqs := by
